@@ -50,6 +50,8 @@ def _case(rng, **over):
                                "send_only": rng.random() < 0.4})
         else:
             c["calls"].append({"op": "resend", "send_only": rng.random() < 0.4})
+        if rng.random() < 0.25:
+            c["calls"][-1]["before"] = rng.choice(["listen_round_trip", "listen_round_trip", "rx_phase", "rx_phase_power", "rx_phase_with"])
     c.update(over)
     return c
 
@@ -212,6 +214,27 @@ def _run(ctx, case, link, prefix):
             link.refill_acks(case["peer_acks"])
         else:
             rr.rx_fifo.clear()
+        before = call.get("before")
+        if before == "listen_round_trip":
+            # a receiving phase between two transmissions (nothing received, no ACK payloads loaded)
+            tx.listen = True
+            node.idle(300000)
+            tx.listen = False
+            ctx.count("listen_round_trips_before_call")
+        elif before and before.startswith("rx_phase") and mode == "ackpl" and case.get("kind", "full") == "full":
+            # a receiving phase in which ACK payloads were loaded but not consumed, left by a plain
+            # role change, through power-down, or through the end of a `with` block
+            tx.listen = True
+            tx.load_ack(b"leftover-ack-1", 1)
+            tx.load_ack(b"leftover-ack-0", 0)
+            if before == "rx_phase_power":
+                tx.power = False
+            elif before == "rx_phase_with":
+                tx.__exit__(None, None, None)
+                tx.__enter__()
+            tx.listen = False
+            failed_payload = None  # documented: leaving RX mode flushes the TX FIFO (ACK payloads)
+            ctx.count("rx_phases_before_send")
         air0 = len(air.log)
         txn0 = len(rt.txn_log)
         t_call = node.t
